@@ -447,6 +447,58 @@ def schema_strategy(max_types=5, rich=True):
     return schemas()
 
 
+def add_weak_family(schema, draw):
+    """Declarations tied by a *weak* (order-preference only) dependency that closes a loop
+    which is not a real cycle: `WA.wname := (assert_exists(WB)).title_` cannot be typed by the
+    SDL tracer, so it prefers to come after every pointer called `title_`, including
+    `WC.title_`, which really depends on `WA.wname` through 1-2 hard hops (function / global /
+    direct).  Every declaration order must be accepted and give the same schema."""
+    from hypothesis import strategies as st
+    mods = schema['modules']
+    if any(d['name'] in ('WA', 'WB', 'WC') for ds in mods.values() for d in ds):
+        return False
+    mnames = sorted(mods)
+    m_a, m_b, m_c = (draw(st.sampled_from(mnames)) for _ in range(3))
+    wrap = draw(st.sampled_from(['assert_exists', 'assert_single', 'assert_distinct']))
+    hop = draw(st.sampled_from(['function', 'function', 'global', 'direct', 'function2']))
+    wa = qname(m_a, 'WA')
+
+    def prop(name, expr=None, target=None):
+        return dict(kind='property', name=name, target=target, card=None, required=False, expr=expr,
+                    default=None, constraints=[], annotations=[], linkprops=[])
+    decl_a = dict(kind='type', name='WA', abstract=False, bases=[],
+                  members=[prop('wname', expr=f"({wrap}({qname(m_b, 'WB')})).title_")])
+    decl_b = dict(kind='type', name='WB', abstract=False, bases=[], members=[prop('title_', target='str')])
+    extra = []
+    if hop == 'function':
+        cexpr = f"{qname(m_c, 'w_get')}()"
+        extra.append((m_c, dict(kind='function', name='w_get', params='', ret='optional str',
+                                body=f'assert_single({wa}.wname)')))
+    elif hop == 'function2':
+        cexpr = f"{qname(m_c, 'w_get2')}()"
+        extra.append((m_c, dict(kind='function', name='w_get2', params='', ret='optional str',
+                                body=f"{qname(m_a, 'w_get')}()")))
+        extra.append((m_a, dict(kind='function', name='w_get', params='', ret='optional str',
+                                body=f'assert_single({wa}.wname)')))
+    elif hop == 'global':
+        cexpr = f"global {qname(m_c, 'w_glob')}"
+        extra.append((m_c, dict(kind='global', name='w_glob', type=None, default=None,
+                                expr=f'assert_single({wa}.wname)')))
+    else:
+        cexpr = f'assert_single({wa}.wname)'
+    decl_c = dict(kind='type', name='WC', abstract=False, bases=[], members=[prop('title_', expr=cexpr)])
+    new = [(m_a, decl_a), (m_b, decl_b), (m_c, decl_c)] + extra
+    # another same-named pointer elsewhere multiplies the weak edges
+    if draw(st.booleans()):
+        new.append((draw(st.sampled_from(mnames)),
+                    dict(kind='type', name='WD', abstract=False, bases=[],
+                         members=[prop('title_', target='str'), prop('wname', target='str')])))
+    for m, d in new:
+        pos = draw(st.integers(0, len(mods[m])))
+        mods[m].insert(pos, d)
+    return True
+
+
 # ---------------------------------------------------------------- layouts
 
 def dependent_pairs(schema):
